@@ -461,7 +461,7 @@ func c07Check(t vh.Fataler, rec *vh.Rec, e *c07Env, c c07Case, twins bool) {
 	}
 	classes := c07Classes(c, exp, o)
 	admitted := exp.Fam[0].Admit && o.Usable[0] || exp.Fam[1].Admit && o.Usable[1]
-	rec.Case(admitted && twins, vh.Digest(c), c, classes...)
+	rec.Case(admitted, vh.Digest(c), c, classes...)
 	if v != nil {
 		if rec.Violation(t, v.Key, c, "%s", v.Msg) {
 			return
